@@ -4,20 +4,11 @@ import json, os
 ROOT = os.path.dirname(os.path.abspath(__file__))
 props = [json.loads(l) for l in open(os.path.join(ROOT, "properties.jsonl"))]
 
-TB = ("Trusted: Coq 8.16.1 kernel + vm_compute; the hand-written Gallina model (tied to the code by the correspondence "
-      "run on every invocation); the Go harness (generators, term printers). No axioms (Print Assumptions: closed), no extraction.")
-
-CLAIMED = {
- "C09": dict(
-   text="Theorems (Rocq, all histories, unbounded): the index-carrying model of hash/stringhash.go refines the abstract "
-        "insertion-ordered map for every operation sequence over any number of hashes (C09_stringhash_refines), never faults, "
-        "keeps the index/entries coupling invariant; abstract-map laws for delete/put/freeze. Tie: every run executes "
-        "bounded-exhaustive + random histories on the real StringHash and on the model (vm_compute) and compares every output; "
-        "a Go-side reference map gives the concrete failing history.",
-   note=TB + " Modelled rather than verified: Go map iteration order (irrelevant to the modelled methods), values are int64.",
-   technique="Rocq refinement proof (simulation to an abstract insertion-ordered map) + model/implementation correspondence by vm_compute",
-   design="5/C09"),
-}
+import glob
+CLAIMED = {}
+for f in sorted(glob.glob(os.path.join(ROOT, "props", "*.json"))):
+    p = json.load(open(f))
+    CLAIMED[p["id"]] = p["manifest"]
 PENDING = "not yet claimed: model and check under construction (see DESIGN.md section 9 build order)"
 
 m = dict(
@@ -30,9 +21,20 @@ m = dict(
                                "models tied to /repo by a differential correspondence run (Go harness vs vm_compute)")],
   checks=[], not_applicable=[],
   notes="All checks: ./check <id> --tier quick|thorough; VERIF_SEED / VERIF_TIER honoured. known_findings.json lists open findings and fixes.")
-hooks_file = os.path.join(ROOT, "hooks_commits.txt")
-if os.path.exists(hooks_file):
-    m["hooks"]["source_commits"] = [l.strip() for l in open(hooks_file) if l.strip()]
+import subprocess
+try:
+    m["hooks"]["source_commits"] = subprocess.run(["git", "-C", "/repo", "log", "--format=%h", "--grep=^verif hook:"],
+                                                  capture_output=True, text=True).stdout.split()
+except Exception:
+    pass
+# the single known-findings file of the interface = concatenation of known_findings/*.json
+kf = []
+for f in sorted(glob.glob(os.path.join(ROOT, "known_findings", "*.json"))):
+    kf += json.load(open(f)).get("findings", [])
+json.dump(dict(comment="Committed list of genuine defects of lyraproj/pcore found by the checks (generated from known_findings/*.json by gen_manifest.py; "
+               "never written by a check at run time). status=open: still in the tree, the check prints KNOWN-FINDING and goes on; "
+               "status=fixed: repaired by the named fix: commit in /repo, suppresses nothing.", findings=kf),
+          open(os.path.join(ROOT, "known_findings.json"), "w"), indent=1)
 for p in props:
     pid = p["id"]
     if pid in CLAIMED:
